@@ -336,6 +336,9 @@ class Cap(object):
         if loc is None:
             return UNK
         if loc[0] == "var":
+            rid_ = st.heap.get(("addrof_of", loc[1]))
+            if rid_ is not None and ("lval", rid_) in st.heap:
+                return st.heap[("lval", rid_)]          # the variable's address was taken: a store through it is its value
             v = st.env.get(loc[1])
             if v is not None and v[0] == "uninit":
                 self.fail(st, "uninit", loc[2], "local `%s` is read on a path on which it was never assigned" % v[1])
@@ -361,6 +364,8 @@ class Cap(object):
         return UNK
 
     def mem_read(self, st, pv, es, n):
+        if pv[0] == "p" and ("addrof", pv[1]) in st.heap and pv[2].is_const() and pv[2].c == 0 and ("lval", pv[1]) in st.heap:
+            return st.heap[("lval", pv[1])]
         if pv[0] == "p":
             r = st.regions.get(pv[1])
             if r is not None and es == 1:
@@ -413,10 +418,15 @@ class Cap(object):
             return
         if loc[0] == "var":
             st.env[loc[1]] = val
+            rid_ = st.heap.get(("addrof_of", loc[1]))
+            if rid_ is not None:
+                st.heap[("lval", rid_)] = val
         elif loc[0] == "heap":
             st.heap[loc[1]] = val
         elif loc[0] == "mem":
             pv, es = loc[1], loc[2]
+            if pv[0] == "p" and ("addrof", pv[1]) in st.heap and pv[2].is_const() and pv[2].c == 0:
+                st.heap[("lval", pv[1])] = val            # *p = v where p is the address of a scalar local
             self.access(st, loc[3], pv, Lin.const(es), True, X.render(loc[3])[:40])
             if pv[0] == "p":
                 self.forget_cells(st, pv[1])
@@ -663,8 +673,14 @@ class Cap(object):
                 t = type_str(inner)
                 if t.endswith("]"):
                     return self.ev(inner, st)
-                rid = st.new_region("local", Lin.const(max((inner.get("tw") or 64) // 8, 1)), None, "&" + inner.get("n", "var"))
-                st.heap[("addrof", rid)] = inner["d"]
+                rid = st.heap.get(("addrof_of", inner["d"]))
+                if rid is None or st.regions.get(rid) is None:
+                    rid = st.new_region("local", Lin.const(max((inner.get("tw") or 64) // 8, 1)), None, "&" + inner.get("n", "var"))
+                    st.heap[("addrof", rid)] = inner["d"]
+                    st.heap[("addrof_of", inner["d"])] = rid
+                    cur_ = st.env.get(inner["d"])
+                    if cur_ is not None and cur_[0] != "uninit":
+                        st.heap[("lval", rid)] = cur_          # what the variable holds is what the cell holds
                 return [(st, P(rid, 0))]
             return [(st, UNK)]
         res = []
@@ -1111,6 +1127,12 @@ class Cap(object):
     def clobber(self, st, dst, nbytes):
         if dst[0] == "p":
             self.forget_cells(st, dst[1])
+            if ("addrof", dst[1]) in st.heap:
+                # the callee may have stored through the address of this local: its value is whatever it stored
+                d_ = st.heap[("addrof", dst[1])]
+                nm_ = fresh("w")
+                st.heap[("lval", dst[1])] = I(Lin.sym(nm_))
+                st.imprecise.add(nm_) if hasattr(st, "imprecise") else None
         if dst[0] == "p":
             r = st.regions.get(dst[1])
             if r is not None:
